@@ -7,6 +7,7 @@ import GscribModel.Model.DirectWrite
                                    caller starts each write()/disconnect() only when told to (`W`)
     W                              the caller may start its next call
     X <o|b>                        the device pushes a line that is nobody's terminal reply: surplus ok / error line
+    G                              the device emits the greeting `Grbl …` (read before online: no line numbers)
     start                          the reader thread sends the first probe
     P                              15 empty reads: another probe (no-op once online)
     D <pre> <o|b>                  device consumes the oldest unread command; <pre> is `-` or a word over
@@ -15,7 +16,7 @@ import GscribModel.Model.DirectWrite
     L                              read error / end of stream
     settle                         (no device action)
     act <name> [<pre> <o|b>]       exactly one transition, no settling; `disabled` if not enabled
-  `start P D R L X W settle` are total (no-op when not applicable) and are followed by `settle`:
+  `start P D R L X G W settle` are total (no-op when not applicable) and are followed by `settle`:
   the host threads run until all of them block.  One record per line. -/
 open GscribModel GscribModel.Proto
 namespace GscribModel.DirectWriteDrv
@@ -26,7 +27,7 @@ def showCmd : Cmd → String
 
 def showReply : Reply → String
   | .status => "s" | .temp => "t" | .ok c => "o:" ++ showCmd c | .bad c => "b:" ++ showCmd c
-  | .xok => "xo" | .xbad => "xb"
+  | .xok => "xo" | .xbad => "xb" | .greet => "g"
 
 def showB (b : Bool) : String := if b then "1" else "0"
 
@@ -46,7 +47,7 @@ def record (s : St) (noop : Bool) : String :=
   s!"| unread={s.toDev.length} wire={showList (s.toHost.map showReply)} " ++
   s!"| out={showList (s.outcomes.map fun p => s!"{p.1}:{if p.2 then "E" else "r"}")} " ++
   s!"| backlog={showB s.backlog} probes={s.probes} draise={showB s.discRaised} " ++
-  s!"surplus={showB s.surplusHit} due={showB s.dueErr}"
+  s!"surplus={showB s.surplusHit} due={showB s.dueErr} ln={showB s.lineNumbers}"
 
 def parsePre (w : String) : Option (List Bool) :=
   if w = "-" then some [] else
@@ -61,6 +62,7 @@ def parseAct (ws : List String) : Option Act :=
   | ["conline"] => some .cOnline | ["psendnext"] => some .pSendnext | ["cpoll"] => some .cPoll
   | ["cdisc"] => some .cDisc | ["wclear"] => some .wClear | ["wenq"] => some .wEnq
   | ["wwake"] => some .wWake | ["wfinish"] => some .wFinish | ["ssend"] => some .sSend
+  | ["dgreet"] => some .dGreet
   | ["dpush", t] => (parseTerm t).map .dPush
   | ["dprocess", p, t] => do
       let pre ← parsePre p
@@ -98,6 +100,7 @@ def stepDrv (d : DS) (line : String) : DS × String :=
       match parseTerm t with
       | some e => total d (.dPush e)
       | none => (d, "bad-op " ++ line)
+  | ["G"] => total d .dGreet
   | ["W"] =>
       let r := settle fuel { d.2 with permits := d.2.permits + 1 } d.1
       (r, record r.1 false)
